@@ -1651,7 +1651,7 @@ class LogicalOperator(BinaryOperator, ABC):
 
     def __post_init__(self):
         super().__post_init__()
-        right_vars = self.right._unique_variables_.filter(lambda v: not isinstance(v, Literal))
+        right_vars = self.right._unique_variables_.filter(lambda v: not isinstance(v.value, Literal))
         self.right_cache.keys = [v.id_ for v in right_vars]
 
     @property
